@@ -1,7 +1,7 @@
 (* Model/GCDoc.v -- the garbage collector over DOCUMENTS: what the collection works from when the metadata file, a
    manifest list or a manifest is a well-formed JSON / Avro document whose STRUCTURE may be damaged (a key dropped,
-   nulled, of another type).  Definitions only.  The readers' demands are the regenerated shapes of Gen/GenMeta.v
-   (translator/gen_meta.py); Model/GC.v is the collector below them.
+   nulled, of another type).  Definitions only.  The readers' demands are the regenerated shapes of Gen/GenDoc.v
+   (translator/gen_doc.py); Model/GC.v is the collector below them.
 
      collect_doc      metadata_manager.refresh() = _read_metadata_file = json.loads + _dict_to_metadata on the current
                       metadata file: a document the reader refuses makes collect() raise before it has deleted anything
@@ -14,7 +14,7 @@
                       path that is not a string makes _normalize_path raise).
    Tied to the code by the `doc_decode` / `doc_runs` correspondences of harness/props/c07.py. *)
 From Coq Require Import ZArith List Bool String Ascii.
-Require Import DS.Model.PyStr DS.Gen.GenNorm DS.Model.GC DS.Model.Doc DS.Gen.GenMeta.
+Require Import DS.Model.PyStr DS.Gen.GenNorm DS.Model.GC DS.Model.Doc DS.Gen.GenDoc.
 Import ListNotations.
 Open Scope string_scope.
 Open Scope Z_scope.
